@@ -467,6 +467,11 @@ BRIDGE = {
         "theorems": ["decrypt_seed_sim", "decrypt_seed_no_panic"],
         "props": ["C14"],
     },
+    "Rough.Bridge.Config": {
+        "rs_modules": ["Config"],
+        "theorems": ["is_valid_config_true_iff", "is_valid_config_not_err"],
+        "props": ["C16", "C15"],
+    },
     "Rough.Bridge.Merkle": {
         "rs_modules": ["Merkle"],
         "theorems": ["new_eq", "node_len_eq", "hash_leaf_eq", "hash_nodes_eq", "finalize_output_sim", "push_leaf_sim", "reset_eq",
@@ -486,6 +491,7 @@ _BRIDGE_WHAT = {
     "Rough.Bridge.Keys": "online.rs / longterm.rs / responder.rs (make_dele, make_cert, classic_midp, rfc_midp, make_srep, make_response, add_*_request, reset)",
     "Rough.Bridge.Sign": "sign.rs (MsgSigner from_seed / update / sign / public_key_bytes, MsgVerifier new / update / verify; ed25519-dalek = the abstract scheme)",
     "Rough.Bridge.Envelope": "kms/envelope.rs decrypt_seed (blob parser, provider unwrap, AEAD open; ring AES-256-GCM and the provider are the model's abstract Aead / Kms)",
+    "Rough.Bridge.Config": "config/mod.rs is_valid_config (every range / presence / directory / address decision of the start-up validator)",
     "Rough.Bridge.Tables": "tag.rs / version.rs (wire values, from_wire, is_nested, names, signing contexts, supported-versions list: the tables the other generated modules use through externs)",
     "Rough.Bridge.SendResponses": "responder.rs send_responses (the whole batch loop incl. failing sends, fault injection, lazily evaluated debug! arguments, statistics events)",
 }
